@@ -69,6 +69,8 @@ type Oblig struct {
 	Tiers    map[string]TierCfg `json:"tiers"`
 	Alt      string             `json:"alt_solver"` // e.g. cvc5-bvint for arithmetic-heavy obligations
 	Solver   string             `json:"solver"`     // main back end (default z3); e.g. "cvc5" for comparison-chain heavy obligations
+	Kind     string             `json:"kind"`       // "" (symbolic exploration) | "locksmt" (lock traces + SMT interleaving check)
+	ReplayEntry string          `json:"replay_entry"`
 	Expect   string             `json:"expect"`     // "" | "reach" (a twin whose violation is expected)
 	Desc     string             `json:"desc"`
 	Bounds   string             `json:"bounds"`
@@ -452,6 +454,11 @@ func runOblig(o *Oblig, tier string) *ObligResult {
 			ex.Known[k.ID] = true
 		}
 	}
+	if o.Kind == "locksmt" {
+		runLockSMT(o, tier, tc, prog, solver, lim, ex, res)
+		res.WallS = time.Since(t0).Seconds()
+		return res
+	}
 	if err := prog.Explore(o.Entry, ex); err != nil {
 		res.Status = "error"
 		res.Error = err.Error()
@@ -543,6 +550,166 @@ func runOblig(o *Oblig, tier string) *ObligResult {
 	}
 	res.WallS = time.Since(t0).Seconds()
 	return res
+}
+
+// runLockSMT: phase 1 extracts the lock-operation trace of every API operation by symbolic
+// execution of the real code (mutex operations recorded, not blocking); phase 2 asks the solver,
+// for every combination of `threads` operations, whether some schedule reaches a deadlock under
+// the RWMutex transition relation (the schedule is a vector of free SMT variables).
+func runLockSMT(o *Oblig, tier string, tc TierCfg, prog *symgo.Program, solver *symgo.Solver, lim symgo.Limits, ex *symgo.Explorer, res *ObligResult) {
+	ex.TraceSync = true
+	if err := prog.Explore(o.Entry, ex); err != nil {
+		res.Status = "error"
+		res.Error = err.Error()
+		return
+	}
+	st := ex.Stats
+	res.Paths, res.PathsOK, res.Decisions, res.Steps = st.Paths, st.PathsOK, st.Decisions, st.Steps
+	res.Funcs = ex.FuncList()
+	res.Stubs = ex.Stubs
+	res.Inconclusive = st.Inconclusive
+	if len(ex.Viols) > 0 {
+		res.Violations = ex.Viols
+		res.Status = "violation"
+		return
+	}
+	byOp := map[uint64][]symgo.SyncTrace{}
+	var ops []uint64
+	for _, t := range ex.SyncTraces {
+		k := t.Choices["choice:op"]
+		if _, ok := byOp[k]; !ok {
+			ops = append(ops, k)
+		}
+		dup := false
+		for _, u := range byOp[k] {
+			if u.String() == t.String() {
+				dup = true
+			}
+		}
+		if !dup {
+			byOp[k] = append(byOp[k], t)
+		}
+	}
+	sort.Slice(ops, func(i, j int) bool { return ops[i] < ops[j] })
+	nthreads := tc.Params["threads"]
+	if nthreads < 2 {
+		nthreads = 2
+	}
+	for _, k := range ops {
+		for _, t := range byOp[k] {
+			if len(res.Samples) < 40 {
+				res.Samples = append(res.Samples, fmt.Sprintf("lock trace of op %d: [%s]", k, t.String()))
+			}
+		}
+	}
+	// enumerate multisets of operations of size nthreads (combinations with repetition) x trace variants
+	var combos [][]uint64
+	var rec func(start int, cur []uint64)
+	rec = func(start int, cur []uint64) {
+		if len(cur) == nthreads {
+			combos = append(combos, append([]uint64{}, cur...))
+			return
+		}
+		for i := start; i < len(ops); i++ {
+			rec(i, append(cur, ops[i]))
+		}
+	}
+	rec(0, nil)
+	queries := 0
+	for _, cb := range combos {
+		// cartesian product of trace variants
+		idx := make([]int, len(cb))
+		for {
+			var threads []symgo.SyncTrace
+			empty := true
+			for i, k := range cb {
+				t := byOp[k][idx[i]]
+				threads = append(threads, t)
+				if len(t.Events) > 0 {
+					empty = false
+				}
+			}
+			if !empty {
+				text, steps := symgo.DeadlockSMT(threads)
+				var want []string
+				for t := 0; t < steps; t++ {
+					want = append(want, fmt.Sprintf("c_%d", t))
+				}
+				r, vals, err := solver.CheckRaw(text, want)
+				queries++
+				res.Asserts++
+				switch {
+				case err != nil || r == symgo.Unknown:
+					res.Inconclusive = append(res.Inconclusive, fmt.Sprintf("solver unknown for ops %v: %v", cb, err))
+				case r == symgo.Unsat:
+					res.Discharged++
+				default:
+					var schedule []string
+					for t := 0; t < steps; t++ {
+						schedule = append(schedule, fmt.Sprint(vals[fmt.Sprintf("c_%d", t)]))
+					}
+					var desc []string
+					in := map[string]uint64{}
+					for i, th := range threads {
+						desc = append(desc, fmt.Sprintf("T%d=op%d[%s]", i, cb[i], th.String()))
+						in[fmt.Sprintf("op%d", i)] = cb[i]
+					}
+					v := symgo.Violation{Oblig: o.ID, Label: "deadlock", Kind: "deadlock", Inputs: in,
+						Msg: "SMT: a schedule reaches a state where no unfinished thread can move: " + strings.Join(desc, " ") + " schedule=" + strings.Join(schedule, ",")}
+					// replay: explore the same operations concurrently on the real code under the scheduler
+					if o.ReplayEntry != "" {
+						ex2 := symgo.NewExplorer(solver, lim)
+						ex2.Oblig = o.ID
+						ex2.Params = map[string]int{}
+						for i, k := range cb {
+							ex2.Params[fmt.Sprintf("op%d", i)] = int(k)
+						}
+						ex2.Params["threads"] = len(cb)
+						prog.Explore(o.ReplayEntry, ex2)
+						found := false
+						for _, v2 := range ex2.Viols {
+							if v2.Kind == "deadlock" {
+								found = true
+							}
+						}
+						if found {
+							v.Replayed = "engine scheduler on the real code: deadlock reproduced"
+						} else {
+							v.Replayed = "NOT reproduced by the engine scheduler on the real code"
+							res.Inconclusive = append(res.Inconclusive, "spurious SMT deadlock for ops "+fmt.Sprint(cb))
+							goto next
+						}
+					}
+					res.Violations = append(res.Violations, v)
+					res.ReplayFiles = append(res.ReplayFiles, writeReplay(o, tier, tc, &v))
+				}
+			}
+		next:
+			// advance product index
+			j := len(idx) - 1
+			for j >= 0 {
+				idx[j]++
+				if idx[j] < len(byOp[cb[j]]) {
+					break
+				}
+				idx[j] = 0
+				j--
+			}
+			if j < 0 {
+				break
+			}
+		}
+	}
+	res.Queries, res.Sat, res.Unsat, res.Unknown = solver.Queries, solver.NSat, solver.NUnsat, solver.NUnknown
+	res.SolverS = solver.Time.Seconds()
+	switch {
+	case len(res.Violations) > 0:
+		res.Status = "violation"
+	case len(res.Inconclusive) > 0:
+		res.Status = "inconclusive"
+	default:
+		res.Status = "ok"
+	}
 }
 
 func lastLines(s string, n int) string {
